@@ -20,7 +20,7 @@ import (
 func TestVerifC01(t *testing.T) {
 	vfMain(t, vfCheck{
 		ID: "C01", Level: "exploration",
-		Rule: "per unit one configuration drawn so that the units cover packet size P in {1,2,3,7,64,1000,32768,65536,131072} x MaxConcurrentRequestsPerFile C in {1,2,3,64} x UseConcurrentReads x UseConcurrentWrites x UseFstat x backend {Server, RequestServer/store, RequestServer/InMemHandler} x allocator x {direct, reorder proxy K in 2..16}; per configuration ~45 transfers: API in {Write, WriteAt, ReadFrom (11 source kinds), ReadFromWithConcurrency (n in -1,0,1,2,C+1), Read loop, ReadAt, WriteTo (2 writer kinds)} with length and offset from the boundary set {0,1,kP-1,kP,kP+1 (k<=3),PC-1,PC,PC+1,2PC+5,random} and initial file sizes around them. A class is (API, P, C, options, length class, offset class); a transfer is non-trivial when it needs more than one packet.",
+		Rule:        "per unit one configuration drawn so that the units cover packet size P in {1,2,3,7,64,1000,32768,65536,131072} x MaxConcurrentRequestsPerFile C in {1,2,3,64} x UseConcurrentReads x UseConcurrentWrites x UseFstat x backend {Server, RequestServer/store, RequestServer/InMemHandler} x allocator x {direct, reorder proxy K in 2..16}; per configuration ~45 transfers: API in {Write, WriteAt, ReadFrom (11 source kinds), ReadFromWithConcurrency (n in -1,0,1,2,C+1), Read loop, ReadAt, WriteTo (2 writer kinds)} with length and offset from the boundary set {0,1,kP-1,kP,kP+1 (k<=3),PC-1,PC,PC+1,2PC+5,random} and initial file sizes around them. A class is (API, P, C, options, length class, offset class); a transfer is non-trivial when it needs more than one packet.",
 		Assumptions: []string{"client packet size <= server maximum payload (WithMaxTxPacket set to P when P > 32768)", "race detector on", "sizes capped (quick 300 KiB, thorough 6 MiB)"},
 		Units: func(tier vfTier, seed uint64) int {
 			if tier == vfThorough {
